@@ -15,7 +15,8 @@ RULE = ("operation sequences over the name universe {a,b,c,'','1x',u.p,u.q,u_p} 
         "(empty; small wired circuits with a blackbox), and seeded random sequences of length <=12 of add (default "
         "/ uid) connect disconnect remove set_output add_blackbox add_subcircuit fill_blackbox with valid, invalid, "
         "duplicate and self-referential arguments; after EVERY call: wired(c), and on a rejected call: edge set "
-        "unchanged and exception class; non-trivial = at least one call succeeded and at least one was rejected")
+        "unchanged and exception class; non-trivial = at least one call succeeded and at least one was rejected"
+        "; plus seed states with nested-blackbox children (`nestedpins`) and a pin node replaced by an ordinary gate (`replacedpin`), type arguments differing from supported types by case / blanks / non-strings")
 BOUND = "sequence length <= 2 exhaustive over the alphabet, <= 12 random; name universe of 8; 4/16 hash seeds"
 
 BBS = {"pintop": ["pintop", ["x"], ["f.q", "o"]], "pintop2": ["pintop2", ["x"], ["f.p", "o"]], "ffd": ["ffd", ["p"], ["q"]], "one": ["one", ["p"], []], "wide": ["wide", ["p", "r"], ["q", "s"]]}
